@@ -17,7 +17,9 @@ RULE = ("case = (m npre npost (l0 l1 .. ln)): a real tachys keyed(..) view whose
         "contains ALL canonical duplicate-free pairs (from = [0..n), to over old keys and canonically named fresh keys, "
         "both of length <= 6, at most 7 keys in total; 7 / 8 in the thorough tier), each in two sibling/m variants, plus "
         "randomly relabelled pairs, random pairs of length <= 12 over 16 keys and histories of 3-8 successive updates "
-        "(all from the PRNG seeded by VERIF_SEED). Non-trivial = at least one update changes the key sequence; "
+        "(all from the PRNG seeded by VERIF_SEED); and modes 11/12: the real leptos <For> / <ForEnumerate> mounted with "
+        "mount_to_renderer, rows creating an RwSignal (rendered as text), a StoredValue and an on_cleanup inside the "
+        "children closure, histories of 2-7 lists, every rendered row's signal written after every update. Non-trivial = at least one update changes the key sequence; "
         "distinct = distinct case hash.")
 TRUSTED = [
     "Coq 8.16.1 kernel (coqc); every theorem of Properties_C11.v is 'Closed under the global context'",
@@ -26,6 +28,10 @@ TRUSTED = [
     "(String,String) / (String,<span>,String) wrapped in a Mountable that logs mount/unmount; runs on the native "
     "in-memory DOM of the verif-hook commit (tachys/src/renderer/native_dom.rs), which is trusted to implement DOM "
     "insertBefore/remove semantics (detach first; unknown anchor = no-op)",
+    "`h_dom c11` modes 11/12 (src/c11for.rs): leptos::For / ForEnumerate + leptos::mount::mount_to_renderer + "
+    "any_spawner futures-executor polled by hand; that a retained row's reactive state (owner, signals, cleanups) "
+    "stays alive is COMPARED (model answers count = writes since built, disposed = 0) and checked by the oracle, not "
+    "proved: the Coq model has no reactive owners",
     "modelled, not verified: indexmap::IndexSet (as a duplicate-free list: get_index, get_full, contains), Vec "
     "(push, take, resize_with, drain_filter), the item views' own mount / unmount / insert_before_this (each node in "
     "order before the anchor; first mounted node is the anchor) — transcribed in Dom/Keyed.v and compared with the "
@@ -110,6 +116,16 @@ def generate(rng, tier):
             n += 1
             for v in (variants[n % 2], variants[2 + n % 4]) if tier == "quick" else (variants[n % 6],):
                 yield dict(case=C.norm([v[0], v[1], v[2], [frm, to]]), kind="canonical-pair")
+    # the real leptos <For> / <ForEnumerate> with rows that own reactive state
+    n_for = 2500 if tier == "quick" else 25000
+    for i in range(n_for):
+        mode = 11 if rng.random() < 0.6 else 12
+        npre, npost = rng.choice([(0, 0), (1, 1), (0, 1), (2, 0), (1, 2)])
+        nk = rng.choice([3, 5, 8])
+        ls = [rand_list(rng, 6, nk)]
+        for _ in range(rng.randint(1, 6)):
+            ls.append(mutate(rng, ls[-1], nk) if rng.random() < 0.8 else rand_list(rng, 6, nk))
+        yield dict(case=C.norm([mode, npre, npost, ls]), kind="leptos-For" if mode == 11 else "leptos-ForEnumerate")
     n_rand = 6000 if tier == "quick" else 60000
     for i in range(n_rand):
         r = rng.random()
@@ -137,7 +153,7 @@ def valid_case(item):
     if not (isinstance(c, list) and len(c) == 4 and all(isinstance(x, int) for x in c[:3]) and isinstance(c[3], list)):
         return False
     m, npre, npost, ls = c
-    if m not in (1, 2, 3) or not (0 <= npre <= 4) or not (0 <= npost <= 4) or not ls:
+    if m not in (1, 2, 3, 11, 12) or not (0 <= npre <= 4) or not (0 <= npost <= 4) or not ls:
         return False
     for l in ls:
         if not isinstance(l, list) or any((not isinstance(k, int)) or k < 0 for k in l) or len(set(l)) != len(l):
@@ -196,10 +212,80 @@ def check_step(m, npre, npost, frm, to, before, old_gen, children, log):
     return None, new_gen
 
 
+def check_for(mode, npre, npost, ls, impl):
+    """<For>/<ForEnumerate>: order and identity as for keyed(), and the rows' own reactive state: a retained row's
+    signal / stored value are alive, its text follows its signal, its cleanup has not run; a removed row's cleanup
+    ran exactly once; new rows are built once"""
+    prev_rows = {}          # key -> (gen, count) at the end of the previous entry
+    prev_list = []          # labels (k, g) of the non-comment children at the end of the previous entry
+    for s, (to, entry) in enumerate(zip(ls, impl)):
+        if entry == [-9] or len(entry) != 4:
+            return "update %d: panic" % s
+        a, log, flags, b = entry
+        for name, rows, bump in (("after the update", a, 0), ("after writing the rows' signals", b, 1)):
+            if len(rows) != npre + len(to) + npost:
+                return "update %d %s: %d children, expected %d" % (s, name, len(rows), npre + len(to) + npost)
+            for i in range(npre):
+                if rows[i][:3] != [-1, 0, i]:
+                    return "update %d: leading sibling disturbed" % s
+            for j in range(npost):
+                if rows[npre + len(to) + j][:3] != [-2, 0, j]:
+                    return "update %d: following sibling disturbed" % s
+            mid = rows[npre:npre + len(to)]
+            if [r[0] for r in mid] != to:
+                return "update %d %s: rendered order is %r, expected %r" % (s, name, [r[0] for r in mid], to)
+            for idx, r in enumerate(mid):
+                k, g, c, prev = r[:4]
+                if mode == 12 and r[4] != idx:
+                    return "update %d %s: row %d shows index %d at position %d" % (s, name, k, r[4], idx)
+                if k in prev_rows:
+                    g0, c0 = prev_rows[k]
+                    if g != g0:
+                        return "update %d: retained row %d was rebuilt" % (s, k)
+                    if c != c0 + bump:
+                        return ("update %d %s: the text of retained row %d shows %d, its signal was written %d times"
+                                % (s, name, k, c, c0 + bump))
+                    if bump == 0 and (prev < 0 or prev >= len(prev_list) or prev_list[prev] != (k, g)):
+                        return "update %d: retained row %d did not keep its DOM node" % (s, k)
+                else:
+                    if c != bump:
+                        return "update %d %s: new row %d shows %d, expected %d" % (s, name, k, c, bump)
+                    if bump == 0 and prev != -1:
+                        return "update %d: new row %d re-uses an old node" % (s, k)
+            if bump == 1:
+                if [r[3] for r in rows] != list(range(len(rows))):
+                    return "update %d: writing a row's signal replaced a DOM node" % s
+        builds = [e[1] for e in log if e[0] == 3]
+        cleans = [(e[1], e[2]) for e in log if e[0] == 4]
+        new = [k for k in to if k not in prev_rows]
+        if sorted(builds) != sorted(new):
+            return "update %d: children closure called for %r, new keys are %r" % (s, builds, new)
+        gone = sorted((k, prev_rows[k][0]) for k in prev_rows if k not in to)
+        if sorted(cleans) != gone:
+            return ("update %d: cleanups ran for rows %r, removed rows are %r (a retained row's state must stay alive, "
+                    "a removed row is cleaned up exactly once)" % (s, sorted(cleans), gone))
+        for f in flags:
+            if f[2] or f[3]:
+                return "update %d: the signal / stored value of rendered row %d is disposed" % (s, f[0])
+        mid = b[npre:npre + len(to)]
+        prev_rows = {r[0]: (r[1], r[2]) for r in mid}
+        prev_list = [(r[0], r[1]) if r[0] >= 0 else (r[0], r[2]) for r in b]
+        # siblings: identity across entries
+        if s > 0:
+            for r in a:
+                if r[0] < 0 and (r[3] < 0):
+                    return "update %d: a sibling was replaced" % s
+    return None
+
+
 def oracle(item, impl):
     m, npre, npost, ls = item["case"]
     if isinstance(impl, str):
         return "panic / harness error: " + impl
+    if m in (11, 12):
+        if len(impl) != len(ls):
+            return "harness returned %d entries for %d lists" % (len(impl), len(ls))
+        return check_for(m, npre, npost, ls, impl)
     if len(impl) != len(ls):
         return "harness returned %d steps for %d lists" % (len(impl), len(ls))
     before = [(-1, 0, i) for i in range(npre)] + [(-2, 0, j) for j in range(npost)]
@@ -221,6 +307,9 @@ def nontrivial(item, model):
 
 def describe(item):
     m, npre, npost, ls = item["case"]
+    if m in (11, 12):
+        return "leptos %s with stateful rows, %d leading / %d following siblings: %s" % (
+            "<For>" if m == 11 else "<ForEnumerate>", npre, npost, " -> ".join(str(l) for l in ls))
     return "keyed list, %d node(s) per item, %d leading / %d following siblings: %s" % (
         m, npre, npost, " -> ".join(str(l) for l in ls))
 
